@@ -67,7 +67,105 @@ func contend(spec contendSpec) {
 	mg.Deps(genericDep[int], genericDep[string])
 	json.NewEncoder(os.Stdout).Encode(map[string]interface{}{"keys": len(contendCount), "not_once": bad,
 		"generic_runs": []int32{atomic.LoadInt32(&genericRuns[0]), atomic.LoadInt32(&genericRuns[1])},
-		"invalid_member": invalidProbe(), "name_prefix": namesProbe(), "custom_fn": customProbe(), "verbose_late": verboseProbe()})
+		"invalid_member": invalidProbe(), "name_prefix": namesProbe(), "custom_fn": customProbe(), "verbose_late": verboseProbe(),
+		"wide": wideProbe(), "ctx_err": ctxErrProbe()})
+}
+
+// ---- wide calls: one call naming n dependencies, for n around and beyond typical batch sizes;
+// when the call returns every one of them must have finished, exactly once (C01, C02).
+var wideDone []int32
+
+func wideBody(round, i int) {
+	if i%17 == 3 {
+		time.Sleep(time.Millisecond)
+	}
+	atomic.AddInt32(&wideDone[round], 1)
+}
+
+func wideProbe() []string {
+	sizes := []int{31, 32, 33, 63, 64, 65, 100, 127, 128, 129, 200, 256, 257, 513, 1000}
+	wideDone = make([]int32, 4*len(sizes))
+	bad := []string{}
+	for si, n := range sizes {
+		for style := 0; style < 4; style++ {
+			round := 4*si + style
+			fns := make([]interface{}, n)
+			for i := range fns {
+				fns[i] = mg.F(wideBody, round, i)
+			}
+			switch style {
+			case 0:
+				mg.Deps(fns...)
+			case 1:
+				mg.CtxDeps(context.Background(), fns...)
+			case 2:
+				mg.SerialDeps(fns...)
+			default:
+				mg.SerialCtxDeps(context.Background(), fns...)
+			}
+			if got := atomic.LoadInt32(&wideDone[round]); int(got) != n {
+				bad = append(bad, fmt.Sprintf("%s over %d dependencies returned when %d had finished",
+					[]string{"Deps", "CtxDeps", "SerialDeps", "SerialCtxDeps"}[style], n, got))
+			}
+		}
+	}
+	time.Sleep(20 * time.Millisecond)
+	for r, c := range wideDone {
+		if n := sizes[r/4]; int(c) != n {
+			bad = append(bad, fmt.Sprintf("call %d over %d dependencies: %d executions in the end", r, n, c))
+		}
+	}
+	return bad
+}
+
+// ---- a member that fails with the context's own error (it was cancelled / timed out while the
+// member ran and the member returns ctx.Err()): that is a failure like any other - the call
+// panics, a serial call starts nothing after it (C03, C13).
+var (
+	ceCancel  context.CancelFunc
+	ceStarted [4]int32
+)
+
+func ceCancelsAndFails(ctx context.Context) error { ceCancel(); <-ctx.Done(); return ctx.Err() }
+func ceWaitsAndFails(ctx context.Context) error    { <-ctx.Done(); return ctx.Err() }
+func ceNext0()                                     { atomic.AddInt32(&ceStarted[0], 1) }
+func ceNext1()                                     { atomic.AddInt32(&ceStarted[1], 1) }
+func ceNext2()                                     { atomic.AddInt32(&ceStarted[2], 1) }
+func ceNext3()                                     { atomic.AddInt32(&ceStarted[3], 1) }
+
+func ctxErrProbe() []string {
+	bad := []string{}
+	try := func(name string, idx int, call func()) {
+		panicked := false
+		func() {
+			defer func() {
+				if recover() != nil {
+					panicked = true
+				}
+			}()
+			call()
+		}()
+		if !panicked {
+			bad = append(bad, name+": returned normally although a member failed with the context's error")
+		}
+		if idx >= 0 && atomic.LoadInt32(&ceStarted[idx]) != 0 {
+			bad = append(bad, name+": the member after the failed one was started")
+		}
+	}
+	ctx, cancel := context.WithCancel(context.Background())
+	ceCancel = cancel
+	try("SerialCtxDeps(ctx, cancelsAndReturnsCtxErr, next)", 0, func() { mg.SerialCtxDeps(ctx, ceCancelsAndFails, ceNext0) })
+	ctx2, cancel2 := context.WithTimeout(context.Background(), 30*time.Millisecond)
+	defer cancel2()
+	try("SerialCtxDeps(ctxWithTimeout, waitsAndReturnsCtxErr, next)", 1, func() { mg.SerialCtxDeps(ctx2, mg.F(ceWaitsAndFails), ceNext1) })
+	ctx3, cancel3 := context.WithCancel(context.Background())
+	ceCancel = cancel3
+	try("CtxDeps(ctx, F(cancelsAndReturnsCtxErr))", -1, func() { mg.CtxDeps(ctx3, mg.F(ceCancelsAndFails)) })
+	// (one function value = one dependency: the wrapped and the bare mention above are the same two keys, already run;
+	//  their remembered failure must fail later calls as well)
+	try("SerialDeps(cancelsAndReturnsCtxErr (already failed), next)", 2, func() { mg.SerialDeps(ceCancelsAndFails, ceNext2) })
+	try("SerialCtxDeps(fresh ctx, waitsAndReturnsCtxErr (already failed), next)", 3, func() { mg.SerialCtxDeps(context.Background(), ceWaitsAndFails, ceNext3) })
+	return bad
 }
 
 // ---- user-implemented mg.Fn values: the registry must keep (Name, ID) PAIRS apart; any key that
